@@ -39,7 +39,10 @@ TrueNodes(lv, d) ==
 
 LevelOK(lv, d, total) ==
     /\ lv.total[d] = total
-    /\ SibNames(lv, d) = Kids(lv.parent)
+    \* every child group that declares the dimension is served (groups that do not declare it ask for nothing in it
+    \* and may be missing from that dimension's calculator tree)
+    /\ SibNames(lv, d) \subseteq Kids(lv.parent)
+    /\ {k \in Kids(lv.parent) : d \in quota[k].dims} \subseteq SibNames(lv, d)
     /\ \A k \in 1..Len(lv.sibs[d]) : lv.sibs[d][k].min >= 0 /\ lv.sibs[d][k].min <= Scale(d) * quota[lv.sibs[d][k].name].min[d]     \* MinOK
     /\ RS!ShareOK(TrueNodes(lv, d), total, Rt(lv, d))
 
@@ -60,7 +63,7 @@ TRefresh ==
     /\ IsEvent("refresh") /\ Skip /\ UNCHANGED scaleOn
     /\ Ev.name \in DOMAIN quota
     /\ PathOK(Ev.levels, Ev.name)
-    /\ \A d \in Dims :
+    /\ \A d \in quota[Ev.name].dims :               \* the dimensions the groups on the path declare
           /\ LevelsOK(Ev.levels, 1, d, Scale(d) * cluster[d])
           /\ Ev.result[d] = RtOf(Ev.levels[Len(Ev.levels)], d, Ev.name)     \* logged in calculator units
 
